@@ -566,6 +566,33 @@ def _run_impl(line, extra=None):
             recs = [rec] if repeats == 1 else rec
             return repr(float(cap)) + " " + ";".join(",".join(repr(float(x)) for x in rr) for rr in recs)
         return render(*guarded(call, 120), fmt)
+    if op == "capf":
+        # the same call as `cap`, reported bit for bit (float.hex): capacity, then the record of every repeat
+        from fractions import Fraction
+        acc = s_acc(t[1])
+        vecs = [[Fraction(x) for x in v.split(",")] for v in t[4].split(";")]
+        repeats = len(vecs)
+        seed = int(t[5])
+        level = (extra or {}).get("level")
+        if level is None or Fraction(float(10 ** level)) != Fraction(t[2]):
+            raise ValueError("capf line: tolerance does not match the level")
+        if repeats > 1:
+            np.random.seed(seed)
+            drawn = [abs(np.random.random(size=(len(acc),))) for _ in range(repeats)]
+            if [[Fraction(float(x)) for x in d] for d in drawn] != vecs:
+                raise ValueError("capf line: start vectors do not match the seed")
+            np.random.seed(seed)
+        elif any(x != 1 for x in vecs[0]):
+            raise ValueError("capf line: the single start vector is all ones")
+
+        def call():
+            return GZ.approximate_capacity(acc, tolerance_level=level, repeats=repeats, maximum_iteration=int(t[3]), process=True)
+
+        def fmt(r):
+            cap, rec = r
+            recs = [rec] if repeats == 1 else rec
+            return float(cap).hex() + " " + ";".join(",".join(float(x).hex() for x in rr) for rr in recs)
+        return render(*guarded(call, 120), fmt)
     if op == "flt":
         gcf = (extra or {}).get("gc")
         st, flt = guarded(lambda: mk_filter(int(t[1]), t[2], t[3], gcf))
